@@ -274,6 +274,7 @@ type World struct {
 	mustSurvive map[int]bool
 	creds       map[string]string
 	noModel     bool // monitors only: the model is not asked (lines are written as comments)
+	longCase    bool // a very long, regular script: monitor hits carry the head and the tail of the trace only
 	concurrent  bool // stimuli were fired concurrently: order-sensitive monitors are switched off
 }
 
@@ -440,7 +441,15 @@ func (w *World) settle() {
 }
 
 func (w *World) hit(kind, detail string) {
-	w.o.Monitor(w.prop, kind, detail, append([]string{}, w.trace...))
+	tr := append([]string{}, w.trace...)
+	if w.longCase && len(tr) > 400 {
+		// the middle of the script is one round repeated tens of thousands of times: keep the set-up, the first rounds
+		// and the decisive end; the whole sequence is regenerated (deterministically) by the replay command
+		head, tail := 60, 120
+		mid := fmt.Sprintf("# ... %d lines elided: the round shown above repeated (the publisher sends the next QoS 1 message, the subscriber receives it under the next packet id and acknowledges it at once; the first delivery stays unacknowledged) ...", len(tr)-head-tail)
+		tr = append(append(append([]string{}, tr[:head]...), mid), tr[len(tr)-tail:]...)
+	}
+	w.o.Monitor(w.prop, kind, detail, tr)
 }
 
 // ---- stimuli
